@@ -117,7 +117,7 @@ static void pseudo_lqxx(Integer num) {
     }
 }
 
-typedef void (*tcallback)(Boolean*, int*, LongInt, tSymbolFlags);
+typedef void (*tcallback)(Boolean*, int*, LargeInt, tSymbolFlags);
 
 static void pseudo_store(tcallback callback, Word MaxMultCharLen) {
     Boolean    ok  = True;
@@ -183,7 +183,7 @@ func_exit:
     as_tempres_free(&t);
 }
 
-static void wr_code_byte(Boolean* ok, int* adr, LongInt val, tSymbolFlags Flags) {
+static void wr_code_byte(Boolean* ok, int* adr, LargeInt val, tSymbolFlags Flags) {
     if (!mFirstPassUnknownOrQuestionable(Flags) && !RangeCheck(val, Int8)) {
         WrError(ErrNum_OverRange);
         *ok = False;
@@ -193,7 +193,7 @@ static void wr_code_byte(Boolean* ok, int* adr, LongInt val, tSymbolFlags Flags)
     CodeLen            = *adr;
 }
 
-static void wr_code_word(Boolean* ok, int* adr, LongInt val, tSymbolFlags Flags) {
+static void wr_code_word(Boolean* ok, int* adr, LargeInt val, tSymbolFlags Flags) {
     if (!mFirstPassUnknownOrQuestionable(Flags) && !RangeCheck(val, Int16)) {
         WrError(ErrNum_OverRange);
         *ok = False;
@@ -203,7 +203,7 @@ static void wr_code_word(Boolean* ok, int* adr, LongInt val, tSymbolFlags Flags)
     CodeLen            = *adr;
 }
 
-static void wr_code_long(Boolean* ok, int* adr, LongInt val, tSymbolFlags Flags) {
+static void wr_code_long(Boolean* ok, int* adr, LargeInt val, tSymbolFlags Flags) {
     UNUSED(ok);
     UNUSED(Flags);
 
@@ -212,7 +212,7 @@ static void wr_code_long(Boolean* ok, int* adr, LongInt val, tSymbolFlags Flags)
     CodeLen            = *adr;
 }
 
-static void wr_code_byte_hilo(Boolean* ok, int* adr, LongInt val, tSymbolFlags Flags) {
+static void wr_code_byte_hilo(Boolean* ok, int* adr, LargeInt val, tSymbolFlags Flags) {
     if (!mFirstPassUnknownOrQuestionable(Flags) && !RangeCheck(val, Int8)) {
         WrError(ErrNum_OverRange);
         *ok = False;
@@ -226,7 +226,7 @@ static void wr_code_byte_hilo(Boolean* ok, int* adr, LongInt val, tSymbolFlags F
     CodeLen = ((*adr) + 1) / 2;
 }
 
-static void wr_code_byte_lohi(Boolean* ok, int* adr, LongInt val, tSymbolFlags Flags) {
+static void wr_code_byte_lohi(Boolean* ok, int* adr, LargeInt val, tSymbolFlags Flags) {
     if (!mFirstPassUnknownOrQuestionable(Flags) && !RangeCheck(val, Int8)) {
         WrError(ErrNum_OverRange);
         *ok = False;
